@@ -492,6 +492,20 @@ def dispatch_stream(R: Run, Rm, GeoBox, GeoboxTiles):
                         continue
                 got = C(R, f"c04 gbtinit {head} {htok} {gtok}",
                              lambda: gout(GeoboxTiles(gb, hobj) if gobj is None else GeoboxTiles(gb, hobj, _tiles=gobj)), f"gbt-init|{'given' if gobj is not None else htok.split('=')[0]}")
+                if gobj is None and htok.startswith("c=") and not got.startswith("ERR:"):
+                    # a tiled GeoBox that was constructed from chunk tuples is tiled exactly: every tile inside the GeoBox,
+                    # the chunk tuples add up to its shape
+                    def _tiled_exactly():
+                        g = GeoboxTiles(gb, hobj)
+                        T = g.shape
+                        inside = all(0 <= s_.start <= s_.stop <= n_ for r_ in range(T[0]) for c_ in range(T[1])
+                                     for s_, n_ in zip(g.roi[r_, c_], (Ny, Nx)))
+                        return "ok" if inside and tuple(sum(c_) for c_ in g.chunks) == (Ny, Nx) else \
+                            f"chunks {g.chunks} for a GeoBox of shape {(Ny, Nx)}"
+                    verdict = guarded(_tiled_exactly)
+                    R.oracle(verdict == "ok", "gbt-tiles-outside-geobox", {"gbox": [Ny, Nx], "how": repr(hobj)},
+                             f"GeoboxTiles constructed with tiles that do not partition its GeoBox: {verdict}",
+                             sig="gbt-init-oracle|chunks-cover")
                 if gobj is not None:
                     R.oracle(got == f"{head} | {tiles_id(gobj)} | {t2_fmt(gobj)}", "roi-tiles-dispatch-wrong",
                              {"gbox": [Ny, Nx], "how": repr(hobj), "_tiles": gtok}, f"a given _tiles is not used as is: {got}",
@@ -568,8 +582,36 @@ def small_stream(R: Run, Rm, BlockAssembler):
                          sig="window-extent-oracle")
 
 
+# ------------------------------------------------------------------ 5. block keys that name one tile twice (pinned)
+def negative_keys_stream(R: Run, BlockAssembler):
+    """block keys are looked up like tuple indices: (-1, 0) and (T-1, 0) name one tile; both are pasted in mapping order,
+    the later one is what the mosaic shows (theorem negative_key_later_block_wins_cex).  Outside the property's quantifier
+    (keys are tile positions); the behaviour is pinned by the model == code correspondence of `extract`."""
+    import itertools as it
+
+    from .c04 import canon_cells, cell_vals, enc, ints
+
+    rng = R.rng
+    for chy, chx in (([1, 1], [1]), ([2, 1], [1, 2]), ([1, 2, 1], [2])):
+        Ty, Tx = len(chy), len(chx)
+        pos = [(r, c) for r in range(-Ty, Ty) for c in range(-Tx, Tx)]
+        combos = [list(k) for k in it.permutations(pos, 2) if (k[0][0] % Ty, k[0][1] % Tx) == (k[1][0] % Ty, k[1][1] % Tx)]
+        combos += [rng.sample(pos, 3) for _ in range(R.pick(6, 40))]
+        for keys in combos:
+            blocks = {k: cell_vals(100, k, [], chy[k[0]], chx[k[1]], []).astype("int16") for k in keys}
+            wy, wx = slice(None), slice(None)
+            line = (f"c04 asm {ints(chy)} {ints(chx)} {list_s([f'{k[0]};{k[1]}' for k in keys])} [] [] [] {enc(wy)} {enc(wx)} [] 100")
+
+            def f():
+                xx = BlockAssembler(blocks, (tuple(chy), tuple(chx))).extract(0)
+                return f"[] {xx.shape[0]} {xx.shape[1]} [] {canon_cells(xx)}"
+
+            R.corr(line, f, sig="asm|aliased-keys")
+
+
 def args_stream(R: Run, Rm, GeoBox, GeoboxTiles, BlockAssembler):
     verify_stream(R, BlockAssembler)
     spelling_stream(R, Rm, GeoBox, GeoboxTiles)
     dispatch_stream(R, Rm, GeoBox, GeoboxTiles)
     small_stream(R, Rm, BlockAssembler)
+    negative_keys_stream(R, BlockAssembler)
